@@ -340,6 +340,12 @@ class ModuleState:
     @classmethod
     def restore(cls):
         cls.snapshot()
+        # functools.lru_cache / cache wrappers keep state between calls: empty them
+        for n, m in list(sys.modules.items()):
+            if m is not None and (n == "dpapi_ng" or n.startswith("dpapi_ng.")):
+                for v in list(vars(m).values()):
+                    if type(v).__name__ == "_lru_cache_wrapper":
+                        v.cache_clear()
         # module-level scalars rebound through a `global` statement (counters, flags)
         for (n, k), v in cls._scalars.items():
             m = sys.modules.get(n)
